@@ -511,7 +511,7 @@ func (e *c14Env) acceptorFlow(r *Run, c c14Case) {
 	known := lerr == nil
 	tok := e.tok(reg)
 	res := c14Guard(func() error {
-		return pool.VerifDigestValidateOrderedTicket(e.ctx, c14Clone(reg), e.signer, store)
+		return pool.VerifC14ValidateOrderedTicket(e.ctx, c14Clone(reg), e.signer, store)
 	})
 	r.Emit(fmt.Sprintf("C14 validateordered %s %s", tok, c14B(known)), res)
 	r.Count("flow/validateordered/" + res)
@@ -868,7 +868,7 @@ func (e *c14Env) provider(r *Run, rng *rand.Rand) {
 	inTok := e.tok(in)
 	cfg := &order.ManagerConfig{Signer: e.signer}
 	res := c14Guard(func() error {
-		return order.VerifDigestValidateAndSignTicket(e.ctx, cfg, t, bid, acct)
+		return order.VerifC14ValidateAndSignTicket(e.ctx, cfg, t, bid, acct)
 	})
 	out := res + " " + e.tok(t)
 	r.Emit(fmt.Sprintf("C14 provider %s %d %d %d %s %d %d %d %d %s %s", inTok, uint32(auctionType),
@@ -999,7 +999,7 @@ func (e *c14Env) randomOps(r *Run, rng *rand.Rand) {
 			if rng.Intn(3) == 0 {
 				st = nil
 			}
-			return pool.VerifDigestValidateOrderedTicket(e.ctx, c, e.signer, &c14Store{known: known, stored: st})
+			return pool.VerifC14ValidateOrderedTicket(e.ctx, c, e.signer, &c14Store{known: known, stored: st})
 		})
 		r.Emit(fmt.Sprintf("C14 validateordered %s %s", ctok, c14B(known)), res)
 		r.Count("rand/validateordered/" + res)
